@@ -309,6 +309,58 @@ add(["C05"],"transaction-per-chunk",True,"R05.5",RT,
 		}
 	}
 	return nil""")
+
+PA='internal/schema/parser.go'
+add(["C10"],"operators-treated-alike",True,"R10.1",PA,
+"""			switch op := setOperation(item.Typ); {
+			case op == ast.OperatorAnd && tailIsOr:
+				// a || b && ...: the conjunction starts at b.
+				last := len(tail.Children) - 1
+				and := &ast.SubjectSetRewrite{
+					Operation: ast.OperatorAnd,
+					Children:  []ast.Child{tail.Children[last]},
+				}
+				tail.Children[last] = and
+				tail, tailIsOr = and, false
+			case op == ast.OperatorAnd && tail != root:
+				// a || b && c && ...: still inside that conjunction.
+			default:
+				newRoot := &ast.SubjectSetRewrite{
+					Operation: op,
+					Children:  []ast.Child{root},
+				}
+				root, tail = newRoot, newRoot
+				tailIsOr = op == ast.OperatorOr
+			}
+""","""			{
+				op := setOperation(item.Typ)
+				newRoot := &ast.SubjectSetRewrite{
+					Operation: op,
+					Children:  []ast.Child{root},
+				}
+				root, tail = newRoot, newRoot
+				_ = tailIsOr
+			}
+""")
+add(["C10"],"not-takes-whole-expression",True,"R10.2",PA,
+"""	} else {
+		child = p.parsePermissionExpression()
+	}
+	if child == nil {
+		return nil
+	}
+	return &ast.InvertResult{Child: child}""","""	} else {
+		child = p.parsePermissionExpressions(itemBraceRight, depth-1)
+	}
+	if child == nil {
+		return nil
+	}
+	return &ast.InvertResult{Child: child}""")
+add(["C10"],"flatten-ignores-operator",True,"R10.3",PA,
+"""if ch, ok := child.(*ast.SubjectSetRewrite); ok && ch != nil && ch.Operation == root.Operation {""",
+"""if ch, ok := child.(*ast.SubjectSetRewrite); ok && ch != nil {""")
+add(["C10"],"neg-operator-test-on-token",False,"",PA,
+"""			case op == ast.OperatorAnd && tailIsOr:""","""			case item.Typ == itemOperatorAnd && tailIsOr:""")
 add(["C19"],"legacy-watcher-drops-last-good",True,"R19.2","internal/driver/config/namespace_watcher.go","","") if False else None
 out=[]
 for props,name,pos,rule,es in C:
